@@ -190,15 +190,21 @@ def estimate_mixture_weight(
         )
     else:
         masked_affiliation = affiliation * saliency[..., None, :]
-        weight = _unit_norm(
-            np.sum(
-                masked_affiliation, axis=weight_constant_axis, keepdims=True
-            ),
-            ord=1,
-            axis=-2,
-            eps=1e-10,
-            eps_style='where',
+        weight = np.sum(
+            masked_affiliation, axis=weight_constant_axis, keepdims=True
         )
+        if weight.shape[-2] != affiliation.shape[-2]:
+            # The class axis itself is tied: uniform weights, as the mean
+            # yields without saliency.
+            weight = np.full_like(weight, 1 / affiliation.shape[-2])
+        else:
+            weight = _unit_norm(
+                weight,
+                ord=1,
+                axis=-2,
+                eps=1e-10,
+                eps_style='where',
+            )
 
     return weight
 
